@@ -5,6 +5,6 @@ if [ "$V" = rel ]; then python3 /verif/selftest/scratch.py up "$N" $K --release 
 else python3 /verif/selftest/scratch.py up "$N" $K >/tmp/try-$K.log 2>&1; B=/tmp/mx-$K/harness/target/debug/rtcpmon; fi
 grep -E "^apply: [^0]|^build: [^0]" /tmp/try-$K.log
 for p in ${P//,/ }; do
-(cd /tmp/mx-$K && $B run --prop $p --seed ${VERIF_SEED:-1} --threads 8 --tool native-$V --out /tmp/mx-$K/p.json --replays /tmp/mx-$K/replays 2>&1 | grep -E "RAW-VIOLATION|INCONCLUSIVE|HANG|panicked at|evaluations" | cut -c1-260 | head -${LINES_MAX:-12})
+(cd /tmp/mx-$K && $B run --prop $p --seed ${VERIF_SEED:-1} --threads 8 --tool native-$V --out /tmp/mx-$K/p.json --replays /tmp/mx-$K/replays 2>&1 | grep -E "RAW-VIOLATION|INCONCLUSIVE|HANG|ABORT|panicked at|evaluations" | cut -c1-260 | head -${LINES_MAX:-12})
 done
 python3 /verif/selftest/scratch.py down $K >/dev/null 2>&1
